@@ -129,8 +129,6 @@ func TestC17(t *testing.T) {
 		h.AckDepthMax = 3
 		sporkKey := h.W.Keys.Spork.Address
 		var model []*c17spork
-		pendingCreate := map[types.Hash]string{}       // send hash -> name
-		pendingActivate := map[types.Hash]types.Hash{} // send hash -> spork id
 		implUsed := map[int]bool{}
 		var undo []func()
 		c.Cleanup(func() {
@@ -147,15 +145,13 @@ func TestC17(t *testing.T) {
 			if c.Weighted("cr.byOther", 4, 1) == 1 {
 				from = h.Users[c.Pick("cr.who", len(h.Users))]
 			}
-			name := fmt.Sprintf("spork-%d", len(model)+len(pendingCreate))
+			name := fmt.Sprintf("spork-%d", len(model))
 			blk, err := h.Submit(&nom.AccountBlock{Address: from, ToAddress: types.SporkContract, TokenStandard: types.ZnnTokenStandard, Amount: big.NewInt(0),
 				Data: definition.ABISpork.PackMethodPanic(definition.SporkCreateMethodName, name, "created by the harness")}, "spork.Create("+name+") by "+from.String()[:10])
 			if err == nil && from != sporkKey {
 				c.Failf("C17/create-by-other-key", "a spork creation sent by %v (not the designated key) was accepted", from)
 			}
-			if err == nil {
-				pendingCreate[blk.Hash] = name
-			}
+			_ = blk
 		}
 		activate := func() {
 			var cands []*c17spork
@@ -191,9 +187,7 @@ func TestC17(t *testing.T) {
 			if err == nil && from != sporkKey {
 				c.Failf("C17/activate-by-other-key", "a spork activation sent by %v (not the designated key) was accepted", from)
 			}
-			if err == nil {
-				pendingActivate[blk.Hash] = s.id
-			}
+			_ = blk
 		}
 		// the model follows the receives of the spork contract
 		seenRecv := map[types.Hash]bool{}
@@ -207,19 +201,31 @@ func TestC17(t *testing.T) {
 					continue
 				}
 				seenRecv[r.Hash] = true
-				if name, ok := pendingCreate[r.FromBlockHash]; ok {
-					model = append(model, &c17spork{id: r.FromBlockHash, name: name, impl: -1})
-					delete(pendingCreate, r.FromBlockHash)
+				// every successful call of the designated key counts, whichever action sent it
+				snd := l.Sends[r.FromBlockHash]
+				if snd == nil || snd.Address != sporkKey || len(snd.Data) < 4 {
+					continue
 				}
-				if id, ok := pendingActivate[r.FromBlockHash]; ok {
-					for _, s := range model {
-						if s.id == id && !s.activated {
-							s.activated = true
-							s.enforce = r.MomentumAcknowledged.Height + 6
-							c.Note("spork %s activated by the momentum %d: enforcement height %d", s.name, r.MomentumAcknowledged.Height, s.enforce)
+				if merr, known := h.A.MethodErrs[snd.Hash]; !known || merr != nil {
+					continue
+				}
+				if m, err := definition.ABISpork.MethodById(snd.Data[:4]); err == nil {
+					switch m.Name {
+					case definition.SporkCreateMethodName:
+						sp := new(definition.Spork)
+						_ = definition.ABISpork.UnpackMethod(sp, m.Name, snd.Data)
+						model = append(model, &c17spork{id: snd.Hash, name: fmt.Sprintf("%q", sp.Name), impl: -1})
+					case definition.SporkActivateMethodName:
+						id := new(types.Hash)
+						_ = definition.ABISpork.UnpackMethod(id, m.Name, snd.Data)
+						for _, sp := range model {
+							if sp.id == *id && !sp.activated {
+								sp.activated = true
+								sp.enforce = r.MomentumAcknowledged.Height + 6
+								c.Note("spork %s activated by the momentum %d: enforcement height %d", sp.name, r.MomentumAcknowledged.Height, sp.enforce)
+							}
 						}
 					}
-					delete(pendingActivate, r.FromBlockHash)
 				}
 			}
 			// the contract's table equals the model
